@@ -183,6 +183,27 @@ def run(ctx: Ctx):
     if not okc:
         ctx.fail(cons, f.loc(), "a CEA with a result other than 2001 does not close the connection "
                  "with DISCONNECT_REASON_CER_REJECTED")
+    # ... and nothing else does: a close is reached only with a result other than 2001 or with a
+    # CEA that names nobody (no usable Origin-Host).  Any further condition (on the negotiated
+    # applications, the vendor, the addresses) closes a connection whose exchange has succeeded -
+    # e.g. the one to a relay agent, whose 2001 CEA advertises only the Relay application
+    cons = "receive_cea:2001-is-accepted"
+    ctx.inst(cons)
+    for n in closes:
+        facts = must_facts(g, at, n)
+        rejected = (f"{msg}.result_code", "==", 2001, False) in facts
+        nameless = any(str(x[0]).replace(" ", "").startswith(f"isinstance({msg}.origin_host,") and x[3] is False
+                       for x in facts) or any(x[0] == f"{msg}.origin_host" and (
+                           (x[1] == "is" and x[2] is None and x[3] is True) or (x[1] == "truthy" and x[3] is False))
+                           for x in facts)
+        if not rejected and not nameless:
+            extra = sorted(str(x) for x in facts if x[0] not in (f"{conn}.state",))
+            ctx.fail(cons, g.loc(n), f"receive_cea closes the connection although the CEA's Result-Code is 2001 "
+                     f"and it names its Origin-Host (conditions on this path: {extra[:4]}): an outbound "
+                     f"connection whose capabilities exchange succeeded does not become ready - a persistent "
+                     f"peer is dialled and closed again on every reconnect cycle",
+                     expected="close only under result_code != 2001 or an unusable Origin-Host",
+                     observed=str(extra)[:200])
     # (for a connection whose exchange is pending; in any other state the CEA is ignored)
     pending = g.guard_edges(lambda t: at.label_when(
         t, lambda a: False if (a.subject == f"{conn}.state" and a.op == "=="
